@@ -1,7 +1,7 @@
 (* C07 (response direction, flat parser) — property theorems only.  Every statement is written out in full over the
    model (Http.v) and the declarative vocabulary of HttpRespSpec.v; each is closed by `exact <lemma>`.
    Read-segmentation independence (parse_response_chunked vs parse_response_flat) is a separate refinement theorem and
-   not in this file; the client redirect clause is exercised by the correspondence check only.
+   not in this file; the client clause (redirect chains, request builders) is in C07_client.v.
    Intrinsic bounds that appear as hypotheses: lengths <= usize_max (2^64-1), the limit of Rust's usize parse. *)
 From Hv Require Import Prelude Bytes StreamBuf TablesHttp Http BytesNumProofs HttpRespSpec HttpRespProofs.
 From Coq Require Import Permutation Lia.
